@@ -48,6 +48,9 @@ type meta struct {
 	Optimized  bool       `json:"optimized"`
 	Prec       [][]string `json:"prec"`
 	HasListener bool      `json:"has_listener"`
+	HasLalr     bool      `json:"has_lalr"`
+	StateType   string    `json:"state_type"`
+	NumRules    int       `json:"num_rules"`
 }
 
 type markerM struct {
@@ -212,6 +215,8 @@ func fill(m *meta, g *grammar.Grammar) {
 		m.Final = t.FinalStates
 		m.Lookaheads = len(t.Lookaheads)
 		m.Optimized = t.Optimized != nil
+		m.HasLalr = len(t.Lalr) > 0
+		m.NumRules = len(t.RuleLen)
 		for _, mk := range t.Markers {
 			m.Markers = append(m.Markers, markerM{Name: mk.Name, States: mk.States})
 		}
